@@ -128,7 +128,7 @@ func init() {
 		val, _ := (*pv).(iface)
 		if st, isSlice := T.Underlying().(*types.Slice); isSlice {
 			if val.t == nil {
-				panic(runtimeError("invalid memory address or nil pointer dereference")) // reflect.TypeOf(nil).Kind()
+				return tuple{nilPtr, i.newError(fr, "failed to cast attribute property to "+T.String()+" - value cannot be converted")}
 			}
 			if _, srcIsSlice := val.t.Underlying().(*types.Slice); !srcIsSlice {
 				return tuple{nilPtr, i.newError(fr, "failed to cast attribute property to "+T.String()+" - value cannot be converted")}
@@ -141,7 +141,7 @@ func init() {
 				if _, isIface := et.Underlying().(*types.Interface); isIface {
 					it := e.(iface)
 					if it.t == nil {
-						panic(runtimeError("reflect: call of reflect.Value.Type on zero Value"))
+						return tuple{nilPtr, i.newError(fr, "failed to cast attribute property to "+T.String()+" - element cannot be converted")}
 					}
 					et, ev = it.t, it.v
 				}
@@ -166,5 +166,24 @@ func init() {
 			return tuple{&cell, iface{}}
 		}
 		return tuple{nilPtr, i.newError(fr, "property exists but cannot be cast to "+T.String())}
+	}
+}
+
+func init() {
+	// context.WithValue checks key comparability through internal/reflectlite; build the valueCtx directly.
+	intrinsics["context.WithValue"] = func(fr *frame, args []value) value {
+		i := fr.i
+		parent := args[0].(iface)
+		if parent.t == nil {
+			panic(targetPanic{iface{t: types.Typ[types.String], v: "cannot create context from nil parent"}})
+		}
+		key := args[1].(iface)
+		if key.t == nil {
+			panic(targetPanic{iface{t: types.Typ[types.String], v: "nil key"}})
+		}
+		ctxPkg := i.prog.ImportedPackage("context")
+		vt := ctxPkg.Type("valueCtx").Type()
+		var cell value = structure{parent, key, args[2]}
+		return iface{t: types.NewPointer(vt), v: &cell}
 	}
 }
